@@ -420,8 +420,15 @@ def discharge(vcs, covers, tier="quick", procs=None):
     rlimit = 150_000_000 if tier == "quick" else 600_000_000
     timeout = 900_000 if tier == "quick" else 3_600_000       # wall-clock backstop only; budgets are rlimits
     groups = {}
+    twins = {}          # identical (hypotheses, goal) under different obligation names: solved once
+    first = {}
     for i, vc in enumerate(vcs):
         key = tuple(t.get_id() for t in vc._pc)
+        full = (key, tuple(t.get_id() for t in vc._extra), vc._goal.get_id())
+        if full in first:
+            twins.setdefault(first[full], []).append(i)
+            continue
+        first[full] = i
         groups.setdefault(key, []).append(i)
     jobs = []
     for key, idxs in groups.items():
@@ -481,4 +488,9 @@ def discharge(vcs, covers, tier="quick", procs=None):
             else:
                 i = int(key[1:])
                 cover_res[covers[i][0]] = (st, reason)
+    for i, others in twins.items():
+        for o in others:
+            for attr in ("seconds", "backend", "reason", "model", "status"):
+                setattr(vcs[o], attr, getattr(vcs[i], attr))
+            vcs[o].seconds = 0.0
     return cover_res
